@@ -2,7 +2,8 @@ from __future__ import annotations
 
 from typing import Callable
 
-from ._type_qualifier import Port, Generic
+from ._type_qualifier import Port, Generic, TypeQualifierBase
+from ._primitive_type import is_primitive_type
 from ._collect_ast_and_scope import FunctionDefinition, InstantiatedFunction
 from cohdl.utility.source_location import SourceLocation
 from ._intrinsic import _intrinsic, _intrinsic_replacement, _IntrinsicInlineEntity
@@ -293,6 +294,16 @@ class Entity(Block):
                     raise AssertionError(
                         f"assignment to port '{name}' failed (src={value}, target={info.ports[name]})"
                     )
+
+                if isinstance(value, TypeQualifierBase) and is_primitive_type(
+                    value.type
+                ):
+                    # the port map connects the objects directly (no conversion
+                    # is possible there and outputs drive the connected object),
+                    # so the connected object must have exactly the type of the port
+                    assert (
+                        value.type is info.ports[name].type
+                    ), f"type of the object connected to port '{name}' ({value.type}) differs from the type of the port ({info.ports[name].type})"
 
                 self._cohdl_port_definitions[name] = value
             elif name in info.generics:
